@@ -87,6 +87,42 @@ CLAIMED = {
    note="Trusted: TLC, the token renderer (tokens -> string with whitespace). Don't-cares: duplicate array names, repeated "
         "index inside one array, rank-0 arrays, text outside the grammar (rejected or accepted as well-formed).",
    technique="TLA+ MapSpec semantics with laws checked by TLC; universe export compared against MapSpec"),
+ "C04": dict(
+   category="model_checking", design_ref="6 C04",
+   text="A map run happens in a child process (its manager processes die with it); the same process reloads twice, a fresh "
+        "process reloads twice (thorough: also a brand-new interpreter): load_outputs for every output and RunInfo.load "
+        "(inputs, defaults, shapes, shape masks, MapSpec strings, per-output storage map). TLC validates every history "
+        "against MapRun + the TLoad action (TraceMapRun.tla): loaded outputs = MapDenote, inputs/defaults = given, shapes = "
+        "product rule, masks = external/internal split of the MapSpec, storage map and MapSpec strings round-trip. Cases: "
+        "MC_MapRun scenarios x file/dict/shared-memory storage, uniform and per-output mixes, plus a slice of the "
+        "MC_MapDenote universe.",
+   note="Serialisation fidelity of arbitrary user objects is cloudpickle's business; values are terms. load_xarray_dataset is "
+        "covered by C19.",
+   technique="TLC trace validation of run + reload histories recorded across processes"),
+ "C16": dict(
+   category="model_checking", design_ref="6 C16",
+   text="TypeCompat.tla: annotation grammar, reference relation Sub by structural rules with an explicit don't-care set "
+        "(source TypeVar, bare generic source, int->float), laws (reflexivity, Any top, union intro/elim, covariance, "
+        "transitivity off the don't-care set) as TLC invariants over all annotations of depth<=1 (quick) / <=2 (thorough) and "
+        "all ordered pairs; edge rule for pipelines (direct / element-wise / reduction with Array wrapping, generated "
+        "MapSpecs and internal shapes unchecked). Exported verdicts are compared with is_type_compatible on annotation "
+        "objects obtained from real function signatures, and exported 2-3 node pipelines are constructed for real "
+        "(TypeError vs success, validate_type_annotations on/off). 70 literal triples of tests/test_typing.py calibrate the "
+        "reference (disagreement = exit 2).",
+   note="Trusted: TLC, the annotation materialiser (exec'd signatures). Forward references, numpy dtypes and user generics "
+        "are outside the grammar.",
+   technique="TLA+ subtype relation checked by TLC; universe export compared against is_type_compatible and Pipeline()"),
+ "C20": dict(
+   category="model_checking", design_ref="6 C20",
+   text="Resources.tla: records over integer quantities, memory as mantissa x unit with overflow-free comparison, wall time "
+        "as a field sequence with Seconds, Valid, CombineMax, WithDefaults, Update, Dict/FromDict, SlurmMentions and the "
+        "laws (CombineMax >= every operand per quantity, WithDefaults keeps set quantities, round trip); side-effect freedom "
+        "as a history property over an object store (every combinator creates a new id, existing ones UNCHANGED). TLC checks "
+        "the laws over TLA+-defined universes and exports cases; the real Resources API is run on every case with a deep "
+        "snapshot comparison of every operand; recorded histories are validated by TLC (TraceResources.tla).",
+   note="Don't-cares: with_defaults across exclusive fields may raise, extra_args/parallelization_mode merging, ties between "
+        "equal sizes/durations, combine_max result fields the property does not name.",
+   technique="TLA+ resource algebra checked by TLC; universe export + history trace validation"),
 }
 NOT_YET = "check not built yet in this round (specification module planned in DESIGN.md section 6)"
 
